@@ -297,3 +297,19 @@ pub fn convex_margin(poly: &[(f64, f64)], p: (f64, f64)) -> f64 {
 /// upper bound of the largest centre-to-vertex distance at a depth ("about one cell size"): 1.08/nside
 /// (exhaustively measured: D*nside -> 1.0686 at the worst cell)
 pub fn cell_radius_bound(depth: u8) -> f64 { 1.08 / nside(depth) as f64 }
+
+/// offsets (dx, dy) in [0,1] (up to rounding) of a position with respect to cell h, from the admissible image closest to the cell
+pub fn ref_offsets(depth: u8, h: u64, lon: f64, lat: f64) -> Option<(f64, f64)> {
+  let ns = nside(depth) as f64;
+  let (d0, i, j) = split(depth, h);
+  let (xc, yc) = base_center(d0);
+  let mut best: Option<(f64, (f64, f64))> = None;
+  for img in ref_proj_images(lon, lat, 1e-13) {
+    let mut dx = (img.0 - xc).rem_euclid(8.0); if dx > 4.0 { dx -= 8.0; }
+    let dy = img.1 - yc;
+    let fi = ns * (dx + dy + 1.0) / 2.0 - i as f64; let fj = ns * (-dx + dy + 1.0) / 2.0 - j as f64;
+    let out = (fi - 0.5).abs().max((fj - 0.5).abs());
+    if best.map_or(true, |b| out < b.0) { best = Some((out, (fi, fj))); }
+  }
+  best.map(|b| b.1)
+}
